@@ -68,6 +68,7 @@ type Contract struct {
 	Names     []string // parameter names override (external functions)
 	Reads     bool     // pure function may read the heap (re-evaluated per state)
 	Unverified bool    // in-repo contract whose body is not (yet) verified: an assumption
+	Implements []string // function-type contracts this function must also satisfy
 	External  bool
 }
 
@@ -250,11 +251,11 @@ func (w *World) parseContractFile(path string) error {
 		case "ghost":
 			// ghost name Sort = init
 			parts := strings.SplitN(rest, "=", 2)
-			fs := strings.Fields(parts[0])
+			fs := strings.SplitN(strings.TrimSpace(parts[0]), " ", 2)
 			if len(fs) != 2 || len(parts) != 2 {
 				return fail("bad ghost declaration")
 			}
-			cur.Ghosts = append(cur.Ghosts, GhostDecl{Name: fs[0], Sort: fs[1], Init: strings.TrimSpace(parts[1])})
+			cur.Ghosts = append(cur.Ghosts, GhostDecl{Name: fs[0], Sort: strings.TrimSpace(fs[1]), Init: strings.TrimSpace(parts[1])})
 		case "at":
 			// at call Name #k [before]: x = expr   |   at call Name #k assert label: expr
 			a, err := parseAt(rest, path, lineNo)
@@ -268,6 +269,8 @@ func (w *World) parseContractFile(path string) error {
 			cur.Reads = true
 		case "trusted":
 			cur.Trusted = true
+		case "implements":
+			cur.Implements = append(cur.Implements, rest)
 		case "unverified":
 			cur.Unverified = true
 			cur.Trusted = true
